@@ -25,7 +25,7 @@ Proof. unfold mk_word, two31, two32. destruct k; lia. Qed.
 Lemma kernel_close_target_close_sqe fd k :
   fd < two31 -> kernel_close_target (close_sqe fd k) = Some (fd, k).
 Proof.
-  intros H. unfold kernel_close_target, close_sqe. destruct k; cbn [sqe_fd sqe_file_index].
+  intros H. unfold kernel_close_target, close_sqe. destruct k; cbn [sqe_fd sqe_file_index sqe_fixed].
   - reflexivity.
   - unfold trunc32, two31, two32 in *.
     destruct (N.eqb_spec ((fd + 1) mod 4294967296) 0) as [E|E]; [exfalso; lia|].
@@ -949,7 +949,7 @@ Example pipe_fallback_direct_request_closed_as_regular :
   quiescent s = true /\ leak12 s = [] /\ leak19 s = [] /\ bad s = [] /\ kopen s = []
   /\ issued s = [(5, Regular); (6, Regular)] /\ closed s = [(6, Regular); (5, Regular)]
   /\ run_obs (init 1 4) es =
-     [1; 1; 10; 1; 21; 0; 1; 1; 1; 11; 0; 5; 11; 0; 6; 1; 1; 1; 30; 6; 1; 20; 1; 5; 0]%Z.
+     [1; 1; 10; 1; 21; 0; 1; 1; 1; 11; 0; 5; 11; 0; 6; 1; 1; 1; 30; 6; 1; 20; 1; 5; 0; 0]%Z.
 Proof. vm_compute. repeat split. Qed.
 
 (** The future is dropped before the refusal is processed: no pipe2(2), nothing issued. *)
